@@ -88,6 +88,7 @@ def mk_ev(lo, hi, n, m, via=None, plain=False):
     the parameters so that a replay takes the same route) built on a DIFFERENT box and re-configured with SetBounds - the
     "configured bounds" of the properties are the current ones whichever way they were set"""
     from iOpt.evolvent.evolvent import Evolvent
+    common.beat("oracle: evolvent object", {"N": n, "m": m, "lower": list(map(float, lo)), "upper": list(map(float, hi))})
     lo_a, hi_a = np.array(lo, dtype=np.double), np.array(hi, dtype=np.double)
     if plain:
         return Evolvent(lo_a, hi_a, n, m)
@@ -269,8 +270,10 @@ def fresh_call(module, func, arg, timeout=900):
     import subprocess
     code = ("import sys, json; sys.path.insert(0, %r); import importlib; m = importlib.import_module('oracles.%s'); "
             "print('@@' + json.dumps(getattr(m, %r)(json.load(sys.stdin)), default=str))" % (_H, module, func))
+    common.beat("reference run in a fresh interpreter: %s.%s" % (module, func), {"argument": arg}, allow=timeout + 60)
     p = subprocess.run([sys.executable, "-c", code], input=json.dumps(arg, default=str), stdout=subprocess.PIPE,
                        stderr=subprocess.PIPE, text=True, env=dict(os.environ), timeout=timeout)
+    common.beat("fresh interpreter returned")
     line = next((l for l in p.stdout.split("\n") if l.startswith("@@")), None)
     if line is None:
         raise RuntimeError("fresh interpreter failed: " + p.stderr[-600:])
@@ -292,8 +295,10 @@ def replay_in_subprocess(module, case, timeout=900):
     import subprocess
     code = ("import sys, json; sys.path.insert(0, %r); import importlib; m = importlib.import_module('oracles.%s'); "
             "print('@@' + json.dumps(m._replay_here(json.load(sys.stdin)), default=str))" % (_H, module))
+    common.beat("replay in a fresh interpreter: %s" % module, {"case": case}, allow=timeout + 60)
     p = subprocess.run([sys.executable, "-c", code], input=json.dumps(case, default=str), stdout=subprocess.PIPE,
                        stderr=subprocess.PIPE, text=True, env=dict(os.environ), timeout=timeout)
+    common.beat("fresh interpreter returned")
     line = next((l for l in p.stdout.split("\n") if l.startswith("@@")), None)
     if line is None:
         return {"reproduced": False, "detail": "replay subprocess failed: " + p.stderr[-800:]}
